@@ -240,18 +240,42 @@ pub fn run_model(driver: &str, cases: &[Vec<String>]) -> Vec<Vec<String>> {
         let _ = stdin.write_all(payload.as_bytes());
     });
     let stdout = child.stdout.take().unwrap();
-    let mut lines = BufReader::new(stdout).lines();
+    // reader thread + watchdog: a model that does not answer within the time limit is killed
+    let (tx, rx) = channel::<String>();
+    std::thread::spawn(move || {
+        for l in BufReader::new(stdout).lines() {
+            match l {
+                Ok(l) => {
+                    if tx.send(l).is_err() {
+                        break;
+                    }
+                }
+                Err(_) => break,
+            }
+        }
+    });
+    let per_line = Duration::from_secs(120);
+    let mut dead = false;
     let mut res = Vec::with_capacity(cases.len());
     for c in cases {
         let mut out = Vec::with_capacity(c.len());
         for _ in 0..c.len() {
-            match lines.next() {
-                Some(Ok(l)) => out.push(l),
-                _ => out.push("model-crash".into()),
+            if dead {
+                out.push("model-timeout".into());
+                continue;
+            }
+            match rx.recv_timeout(per_line) {
+                Ok(l) => out.push(l),
+                Err(_) => {
+                    dead = true;
+                    let _ = child.kill();
+                    out.push("model-timeout".into());
+                }
             }
         }
         res.push(out);
     }
+    let _ = child.kill();
     let _ = writer.join();
     let _ = child.wait();
     res
